@@ -369,8 +369,12 @@ pub fn run_c11_one(tier: &str, rng: &mut Rng, model: &Model, rep: &mut Report, c
         .push(format!("all strings over {{A,C,G,T,u,N}} of length 0..={} x S in {{1,2,3}}", maxlen));
     for b in 0..=255u8 {
         cases.push(Case::new("cgr", &[2], &[b'A', b, b'c'], "byte-in-context"));
+        cases.push(Case::new("cgr", &[2], &[b, b'A', b'c'], "byte-first"));
+        cases.push(Case::new("cgr", &[2], &[b, b, b'G', b'T'], "byte-first-twice"));
+        cases.push(Case::new("cgr", &[2], &[b'A', b'c', b], "byte-last"));
+        cases.push(Case::new("cgr", &[3], &[b], "byte-alone"));
     }
-    rep.exhaustive_spaces.push("all 256 byte values inside a nucleotide context (rejection clause)".into());
+    rep.exhaustive_spaces.push("all 256 byte values inside / first / repeated first / last / alone in a nucleotide context (rejection clause)".into());
     let n = if tier == "thorough" { 20_000 } else { 1_500 };
     for _ in 0..n {
         let sz = *rng.pick(&[1u64, 2, 3, 16, 1000, 1 << 20, 7, 49, (1 << 20) - 1]);
